@@ -10,6 +10,11 @@ every run):
 -/
 import Pandora.Bridge.Schedule
 
+set_option linter.unusedTactic false
+set_option linter.unreachableTactic false
+set_option linter.unusedSimpArgs false
+set_option linter.unnecessarySeqFocus false
+
 namespace Pandora.Bridge.C01
 open Pandora Pandora.Gen.Schedule Pandora.Bridge.Schedule Pandora.Proofs.LineMath
 
@@ -19,32 +24,42 @@ theorem NewLine_sem (f t : ℝ) (D : ℤ) (h : f ≠ t) (hc : Cfg (slope f t D) 
     ∃ at_ : ℤ → ℤ, NewLine f t D = Sched.doAt D (Go.f2i (cum (slope f t D) f (secs D))) at_ ∧
       ∀ k : ℤ, 0 ≤ k → (k : ℝ) ≤ cum (slope f t D) f (secs D) →
         at_ k = Go.f2i (xk (slope f t D) f (k : ℝ) * 1000000000) := by
-  refine ⟨lineDoAt (slope f t D) f, ?_, ?_⟩
-  · unfold NewLine
-    simp only [h, if_false]
-    -- count and slope up to commutative-ring identities
-    all_goals
-      refine congrArg₂ (Sched.doAt D) ?_ ?_
-      · congr 1 <;> (unfold cum slope secs; ring)
-      · congr 1 <;> (unfold slope secs; ring)
+  -- `NewLine` and the closure builder `lineDoAt` are unfolded TOGETHER: how the slope, 2a or b² travel from the one to
+  -- the other (which of them is a parameter, which is recomputed) is not part of the statement
+  unfold NewLine lineDoAt
+  schedule_aux_unfold
+  simp only [h, h.symm, if_false]
+  try simp only [f2i_cast_f2i]
+  refine ⟨_, congrArg₂ (Sched.doAt D) ?_ rfl, ?_⟩
+  · -- count and slope up to commutative-ring identities, or (the duration is not zero) field identities such as
+    -- a·xn²/2 + b·xn = (from + to)·xn/2
+    have hD : (D:ℝ) ≠ 0 := by
+      have := hc.s_pos
+      unfold secs at this
+      intro h0; rw [h0] at this; simp at this
+    congr 1
+    first
+    | (unfold cum slope secs; ring1)
+    | (unfold cum slope secs; field_simp; ring1)
   · intro k hk0 hk
     have hk0' : (0:ℝ) ≤ (k:ℝ) := by exact_mod_cast hk0
     first
     | -- cancellation-free form with the `i == 0` guard
-      (unfold lineDoAt
-       try simp only
+      (try beta_reduce
        split_ifs with h0
        · subst h0
          rw [Int.cast_zero, xk_zero hc]; simp [Go.f2i]
        · rw [← xk2_eq_xk hc hk0' hk]
          congr 1
-         unfold xk2
-         ring_nf)
+         unfold xk2 slope secs
+         ring_nf
+         done)
     | -- the textbook form
-      (unfold lineDoAt xk
-       try simp only
+      (try beta_reduce
+       unfold xk slope secs
        congr 1
-       ring_nf)
+       ring_nf
+       done)
 
 theorem ConstConfig_valid_iff (ops : ℝ) (D : ℤ) : ConstConfig_valid ops D ↔ (0 ≤ ops ∧ 1000000 ≤ D) := by
   unfold ConstConfig_valid; constructor <;> (intro h; simpa using h)
@@ -81,6 +96,12 @@ theorem next_started (D n : ℤ) (f : ℤ → ℤ) (t0 now : ℤ) (m : ℕ) :
     doAtSchedule_Next now (startedSt D n f t0 m) =
       Except.ok ((if n ≤ (m : ℤ) then (t0 + D, false) else (t0 + f (m : ℤ), true)), startedSt D n f t0 (m + 1)) := by
   by_cases hm : n ≤ (m : ℤ) <;> simp [doAtSchedule_Next, startedSt, hm]
+
+/-- a leaf that was never `Start`ed takes the clock reading of its first `Next` as its start -/
+theorem next_fresh (D n : ℤ) (f : ℤ → ℤ) (now : ℤ) :
+    doAtSchedule_Next now (NewDoAtSchedule D n f) =
+      Except.ok ((if n ≤ 0 then (now + D, false) else (now + f 0, true)), startedSt D n f now 1) := by
+  by_cases hm : n ≤ 0 <;> simp [doAtSchedule_Next, StartSync_MarkStarted, NewDoAtSchedule, startedSt, hm]
 
 theorem left_fresh (D n : ℤ) (f : ℤ → ℤ) :
     doAtSchedule_Left (NewDoAtSchedule D n f) = Except.ok ((if n < 0 then 0 else n), NewDoAtSchedule D n f) := by
